@@ -55,15 +55,19 @@ class ByNameEnumMappingGenerator(BaseEnumMappingGenerator):
     ):
         self._name_style = name_style
         self._map = map if map is not None else {}
+        # Members of enums with str or int mixin are equal to their values and have the same hash,
+        # so member keys are matched by class and name and never meet the keys that are names
+        self._member_map = {(type(key), key.name): value for key, value in self._map.items() if isinstance(key, Enum)}
+        self._name_map = {key: value for key, value in self._map.items() if not isinstance(key, Enum)}
 
     def _generate_mapping(self, cases: Iterable[EnumT]) -> Mapping[EnumT, str]:
         result = {}
 
         for case in cases:
-            if case in self._map:
-                mapped = self._map[case]
-            elif case.name in self._map:
-                mapped = self._map[case.name]
+            if (type(case), case.name) in self._member_map:
+                mapped = self._member_map[type(case), case.name]
+            elif case.name in self._name_map:
+                mapped = self._name_map[case.name]
             elif self._name_style:
                 mapped = convert_snake_style(case.name, self._name_style)
             else:
